@@ -19,7 +19,7 @@ theorem foldAppend_cons (a0 b : Arr α) (rest : List (Arr α)) (zero : α) (axis
   simp only [foldAppend, List.foldl_cons, Res.bind_ok, h]
 
 /-- **the fold of `append` along axis `k = P.length`** -/
-theorem foldAppend_cut (zero : α) (P Q : List Nat) (hP : 0 ∉ P) (hQ : 0 ∉ Q) :
+theorem foldAppend_cut (zero : α) (P Q : List Nat) :
     ∀ (rest : List (Arr α)) (a0 : Arr α), a0.WF → a0.shape = P ++ axLen P.length a0 :: Q →
       (∀ b ∈ rest, b.WF ∧ b.shape = P ++ axLen P.length b :: Q) →
       ∃ r, foldAppend a0 rest zero (some P.length) = .ok r ∧
@@ -35,9 +35,9 @@ theorem foldAppend_cut (zero : α) (P Q : List Nat) (hP : 0 ∉ P) (hQ : 0 ∉ Q
     simp [offsetOf]
   | b :: rest, a0, hwf, hs, hr => by
     obtain ⟨hbw, hbs⟩ := hr b List.mem_cons_self
-    obtain ⟨a1, h1, h2, h3, h4, h5⟩ := appendAxis_cut a0 b zero _ _ P Q hwf hbw hs hbs hP hQ
+    obtain ⟨a1, h1, h2, h3, h4, h5⟩ := appendAxis_cut a0 b zero _ _ P Q hwf hbw hs hbs
     have hl1 : axLen P.length a1 = axLen P.length a0 + axLen P.length b := axLen_cut a1 P Q _ h2
-    obtain ⟨r, g1, g2, g3, g4⟩ := foldAppend_cut zero P Q hP hQ rest a1 h3 (by rw [hl1]; exact h2)
+    obtain ⟨r, g1, g2, g3, g4⟩ := foldAppend_cut zero P Q rest a1 h3 (by rw [hl1]; exact h2)
       (fun x hx => hr x (List.mem_cons_of_mem _ hx))
     refine ⟨r, ?_, ?_, g3, ?_⟩
     · rw [foldAppend_cons a0 b rest zero (some P.length) a1 h1]; exact g1
@@ -134,7 +134,7 @@ theorem shape_cut_of_eraseIdx (s : List Nat) (k : Nat) (P Q : List Nat) (hk : k 
   exact hc
 
 /-- **`concatenate` along axis `k = P.length`** -/
-theorem concatenate_cut (zero : α) (P Q : List Nat) (hP : 0 ∉ P) (hQ : 0 ∉ Q) (a0 : Arr α) (rest : List (Arr α))
+theorem concatenate_cut (zero : α) (P Q : List Nat) (a0 : Arr α) (rest : List (Arr α))
     (h : ∀ b ∈ a0 :: rest, b.WF ∧ b.shape = P ++ axLen P.length b :: Q) :
     ∃ r, concatenate (a0 :: rest) zero (some P.length) = .ok r ∧
       r.shape = P ++ (((a0 :: rest).map (axLen P.length)).sum) :: Q ∧ r.WF ∧
@@ -149,7 +149,7 @@ theorem concatenate_cut (zero : α) (P Q : List Nat) (hP : 0 ∉ P) (hQ : 0 ∉ 
     · rw [Arr.ndim, this]; simp
     · rw [this, eraseIdx_mid]
   obtain ⟨hw0, hs0⟩ := h a0 List.mem_cons_self
-  obtain ⟨r, h1, h2⟩ := foldAppend_cut zero P Q hP hQ rest a0 hw0 hs0 (fun b hb => h b (List.mem_cons_of_mem _ hb))
+  obtain ⟨r, h1, h2⟩ := foldAppend_cut zero P Q rest a0 hw0 hs0 (fun b hb => h b (List.mem_cons_of_mem _ hb))
   refine ⟨r, ?_, h2⟩
   simp only [concatenate, hv, Res.bind_ok]
   exact h1
